@@ -3,6 +3,7 @@ package main
 import (
 	"bytes"
 	"html"
+	"os"
 	"regexp"
 	"unicode/utf8"
 )
@@ -86,7 +87,7 @@ func oracleC08(f EscForm, in, out []byte) string {
 
 func runC08(o *Options) *Result {
 	reps := []rune{'a', 'f', 'F', '0', '9', ' ', '\t', '\n', '\r', '\\', '/', '"', '\'', '<', '>', '&', ',', '.', '_', '-', ';', '#', 'x', 'X', 0, 1, 0x1e, 0x1f, 0x7f, 0x80, 0x85, 0x9f, 0xa0, 0xe9, 0x7ff, 0x800, 0x2028, 0xfffd, 0xffff, 0x10000, 0x1f600, 0x10ffff, 'l', 't', 'g', 'q', 'u', 'o', 'm', 'p', '3', '=', '%', '@', '!', '?', '*', '|', '~', '^', '`', '[', ']', ':'}
-	return runEscaperProperty(o, "C08", c08Forms, oracleC08, escPlan{
+	res := runEscaperProperty(o, "C08", c08Forms, oracleC08, escPlan{
 		Singles: true, RandomQuick: 3000, RandomThorough: 300000, MaxLen: 32, Scalars: true,
 		ScalarForms: []string{"h", "a"},
 		Gen: func(r *RNG, maxLen int) []byte {
@@ -139,4 +140,12 @@ func runC08(o *Options) *Result {
 			return b
 		},
 	})
+	if res.InfraError != "" {
+		return res
+	}
+	// everything rendered inside a htmlescape region: interpreter-level correspondence and reference semantics
+	sub := *o
+	sub.WorkDir = o.WorkDir + "/region"
+	_ = os.MkdirAll(sub.WorkDir, 0o755)
+	return mergeResults(res, runInterp(&sub, "C08", regionProfile("htmlescape"), 200, 4000, corrInterp))
 }
